@@ -64,6 +64,27 @@ CHECKS = {
         "Trusted: vf/ref/model.py + vf/ref/ota.py (own CRC). A block request for non-existent firmware may or may not start the fetching phase (both accepted).",
         "DESIGN.md §2 C10",
     ),
+    "C06": (
+        "exploration",
+        "Hypothesis-generated operation sequences (id requests, presentations, traffic, save ticks, stop/restart) with a history invariant over all emitted id responses across gateway lifetimes",
+        "Every id response of the whole history (all lifetimes on one persistence file, both formats) is checked for range, freshness against the nodes known at that moment and against every id handed out before. 1.9k quick / 12.8k thorough sequences. Found F8 on the pinned tree.",
+        "Trusted: stop() is the clean stop; timer replaced by a harness-fired fake; a smarter allocator (gap filling) stays green.",
+        "DESIGN.md §2 C06",
+    ),
+    "C11": (
+        "exploration",
+        "Hypothesis-generated reachable states with forced payload classes; round-trip oracle save->load in both formats on typed projections; differential json vs pickle",
+        "States are reached through real histories (incl. transient desired values, hold queues, reboot flags, OTA sessions) and saved by stop(); a fresh gateway must load the identical typed projection, json and pickle must agree, and no transient state may come back.",
+        "Trusted: projection covers the attributes the README documents (type, sketch, battery, version, heartbeat, children, descriptions, values).",
+        "DESIGN.md §2 C11",
+    ),
+    "C14": (
+        "exploration",
+        "Hypothesis-generated histories with harness-fired periodic-save ticks at drawn positions, every handler kind as the last state change; round-trip oracle across stop()/fresh start",
+        "Typed projection before stop() must equal the projection loaded by a fresh gateway; ticks are biased to fall right before the last state change so that a handler that forgets to mark the state unsaved is exposed. Found F8 on the pinned tree.",
+        "Trusted: fake threading.Timer inside mysensors.task; real file system in a scratch directory.",
+        "DESIGN.md §2 C14",
+    ),
 }
 
 NOT_YET = {}
